@@ -44,6 +44,8 @@ def main(argv=None):
                           "inconclusive": dict(agg["inconclusive"]), "counters": dict(agg["counters"]),
                           "extra": agg["extra"], "shard_failures": agg["shard_failures"]}, indent=1)[:6000])
         return 1 if agg["violating"] else 0
+    if args.lane is not None:
+        os.environ["VERIF_TRIAGE"] = "1"      # a single-lane run is a triage aid: it never rewrites evidence/<ID>.json
     mod, agg = runner.run_check(prop, args.tier, seed, only_lane=args.lane)
     return runner.decide_and_report(prop, args.tier, seed, mod, agg)
 
